@@ -30,6 +30,9 @@ CHECKS = {
  "C15": dict(engine="sequence explorer + stdio process driver + in-process router", technique="exhaustive enumeration of all message sequences up to length m over a 70-template grammar of valid/invalid parameters, each executed against the real server binary over stdio and against the real router in-process; reference model of allowed document outcomes",
    text="After initialize/initialized/didOpen every sequence of <=m templates (invalid positions in every direction, reversed and mid-surrogate ranges, rejected-then-valid changes, unknown/closed/untitled/non-file URIs, watched-file events for existing and vanished paths, every request kind at valid/beyond/unknown targets) is sent to a fresh server process; oracle: process alive and exits 0 after shutdown/exit, every request id answered exactly once, canary answered, each document's text is an allowed outcome (applied as denoted under LSP leniency, or forgotten).",
    note="m=2 on the binary and in-process (quick), m=3 in-process plus change-heavy m=3 on the binary (thorough). Closed and file-watched documents are unconstrained in the text oracle.", ref="5/C15"),
+ "C19": dict(engine="E1 input-space enumerator + in-process router", technique="bounded exhaustive enumeration of documents x highlight lists through the real relative encoder, decoded by a reference LSP client; end-to-end runs of semanticTokens/full through the real router compared with the analysis' own classification of every identifier",
+   text="Encoder: every document up to L symbols over {a, space, LF, 2-byte, 4-byte} x every subset of its identifier runs as highlight list x tag assignments: the stream must decode to exactly the reference conversion, strictly increasing, inside lines, no overflow. End to end: every token of the stream is a function / constructor / module identifier with the right type and every such USE is present (declarations and import items may be tagged).",
+   note="The end-to-end layer uses fixed projects (not exhaustive, reported as such); its classification oracle is relational (go-to-definition target kind, hover type).", ref="5/C19"),
  "C20": dict(engine="E3 query sweeper + range monitor", technique="bounded exhaustive enumeration of workspace variants x offsets x all query kinds; invariant monitor on every reported range",
    text="Every range in every answer of the C10 sweep (diagnostics, hover, goto focus/full, references, highlights, rename edits, prepare-rename, completion source ranges, semantic highlights) is checked: file belongs to the workspace, within bounds, on character boundaries, focus inside full, name-like ranges start and end on token boundaries.",
    note="'Covers a whole token' is checked as: starts at a token start and ends at a token end (go-to-definition reports a whole field or spread pattern as focus).", ref="5/C20"),
